@@ -485,6 +485,7 @@ def design_check(ctx):
         r = ctx.mc("FramingMC", "FramingMC_%s%s.cfg" % (kind, ctx.pick("", ".thorough")), label=kind, timeout=4 * 3600)
         if r.ok:
             ctx.require_actions("FramingMC", acts + extra[kind])
+            ctx.extra["FramingMC_%s_actions" % kind] = {k: v for k, v in ctx.coverage_actions.items() if k.startswith("FramingMC.")}
             continue
         if r.kind != "invariant" or not r.cex:
             raise MachineryError("FramingMC/%s failed: %s" % (kind, r.error))
@@ -494,15 +495,6 @@ def design_check(ctx):
         rej = ctx.validate("FramingTrace", [t])
         ctx.log("FramingMC/%s: TLC counterexample on the Impl layer (stream %r, cuts %s); real receiver %s" % (
             kind, b"".join(conc(elems)), cuts, "reproduces it" if rej else "does NOT reproduce it"))
-        if not rej and kind == "LO":
-            # the code under test does not have the as-is unterminated-buffer test: check the repaired-bound model instead
-            ctx.coverage_actions = {k: v for k, v in ctx.coverage_actions.items() if not k.startswith("FramingMC.")}
-            r2 = ctx.mc("FramingMC", "FramingMC_LOrepaired%s.cfg" % ctx.pick("", ".thorough"), label="LO-repaired")
-            if r2.ok:
-                ctx.require_actions("FramingMC", acts + extra[kind])
-                ctx.extra["lineonly_model"] = "repaired"
-                ctx.log("FramingMC/LO: the real LineOnlyReceiver conforms to the repaired-bound model, which TLC verifies")
-                continue
         if not rej:
             raise MachineryError("FramingMC/%s: Impl-layer counterexample not reproduced by the real code (model drift): %r cuts=%s" % (kind, b"".join(conc(elems)), cuts))
         report(ctx, [t], rej, "Impl-layer counterexample found by TLC, reproduced on the real receiver")
@@ -521,8 +513,7 @@ def run(ctx):
     # spec -> code: behaviours of the Impl layer generated by TLC are replayed on the real receivers
     drift = replayed = 0
     for kind in ("LO", "LR", "IN", "NS"):
-        simcfg = "FramingSim_LOrepaired.cfg" if kind == "LO" and ctx.extra.get("lineonly_model") == "repaired" else "FramingSim_%s.cfg" % kind
-        for b in ctx.simulate("FramingSim", simcfg, num=ctx.pick(12, 300), depth=13):
+        for b in ctx.simulate("FramingSim", "FramingSim_%s.cfg" % kind, num=ctx.pick(12, 300), depth=13):
             datas = [h for h in b["hist"] if h["e"] == "data"]
             if not datas:
                 continue
